@@ -41,3 +41,35 @@ func TestC28All(t *testing.T) {
 	}
 	t.Log("exit", r.Finish(cov, nil))
 }
+
+// TestC28One executes the cases whose id starts with $C28CASE in this process and prints
+// the trace (a crash of the server kills the test: the stack is the reproduction).
+func TestC28One(t *testing.T) {
+	want := os.Getenv("C28CASE")
+	if want == "" {
+		t.Skip("set C28CASE=<case id prefix>")
+	}
+	boot, err := bootC28()
+	if err != nil {
+		t.Fatal(err)
+	}
+	bases, err := c28ImportBases(boot)
+	if err != nil {
+		t.Fatal(err)
+	}
+	cases, err := c28Cases(bases)
+	if err != nil {
+		t.Fatal(err)
+	}
+	for i := range cases {
+		c := &cases[i]
+		if len(c.id()) < len(want) || c.id()[:len(want)] != want {
+			continue
+		}
+		for _, r := range c.Reqs {
+			t.Logf("%s: %s", c.id(), r)
+		}
+		res := execC28(boot, c)
+		t.Logf("  -> counts=%v engine=%q viol=%v", res.Counts, res.Engine, res.Viol)
+	}
+}
